@@ -520,6 +520,10 @@ class Interp(ExprMixin, CallMixin):
                     nonempty = self.known_truth(recv, s)     # a non-empty mapping has items
             if itv.k in ('tuple', 'list'):
                 nonempty = len(itv.a[0]) > 0 if (itv.k == 'tuple' or itv.a[0]) else nonempty
+                if itv.k == 'list' and not itv.a[0] and self._list_final(itv, s) and not s.fn.is_generator \
+                        and not any(fr.is_generator for fr in s.stack):
+                    # (not in generators / context managers: they hand `lst.append` to their caller)
+                    nonempty = False        # a tracked list to which nothing was appended on this path
             # zero iterations
             stable = itv.k in ('param', 'rows', 'term', 'mcall', 'comp', 'ret', 'ucall', 'field', 'elem') and \
                 nonempty is None
